@@ -11,6 +11,7 @@ def run(ctx):
     RT.generator_sorted_dedup(ctx, "R18.c")
     RT.shared_generator(ctx, "R18.c")
     RT.gram_iter_width(ctx, "R18.c")
+    RT.grams_from_whole_words(ctx, "R18.c")
     RT.enumerate_indices(ctx, "R18.d")
     RT.counters(ctx, "R18.e")
     RS.reset_before_read(ctx, "RS", only_owner="store::trigram_index::TrigramIndex", floor=1)
